@@ -10,7 +10,7 @@ export VSIM_DIGEST=1 VSIM_COLLECT=1
 runs=${1:-3000}
 fail=0
 if grep -n "range .*Faults\b\|range .*Probes\b" vsim/props/*.go vsim/work/*.go | grep -v "^Binary"; then echo "map iteration in a world"; fi
-for id in C02 C03 C04 C05 C06 C06b C06c C08 C10 C11 C11b C11c C12 C19 C20; do
+for id in C02 C03 C04 C05 C06 C06b C06c C08 C08b C08c C10 C11 C11b C11c C12 C12b C19 C20; do
   r=$runs
   [ "$id" = C20 ] && r=$((runs/10))
   ref=""
